@@ -17,7 +17,7 @@ D = {  # id: (property, breaks, needs, strengthened-note)
  "C20-2": ("C20", "word-wise DistanceCmp never compares the last 8 bytes", "addresses equal in the first 24 bytes", ""),
  "C21-1": ("C21", "in-place swap-remove in PSlice.Remove (no copy-on-write)", "Remove of a non-last element while an iteration holds the bin's slice header", ""),
  "C21-2": ("C21", "Length() from a cached counter that over-counts in-batch duplicates", "batched Add naming one new address twice, then Length()", ""),
- "C22-1": ("C22", "depth recalculated outside depthMu (lost atomicity, stale write-back)", "a slow recalculation overlapped by SetRadius / Disconnected", "MISSED by the sequential C22 check — see §10.4"),
+ "C22-1": ("C22", "depth recalculated outside depthMu (lost atomicity, stale write-back)", "a slow recalculation overlapped by SetRadius / Disconnected", "missed at first; C22 now parks a recalculation and overlaps other events (racerecalc) and proves the atomic compute-and-store fact over generated lock regions"),
  "C22-2": ("C22", "Disconnected skips the recalculation while BinSize (all peers) stays saturated", "bin shallower than depth with exactly 4 reachable + >=1 unreachable peers, a reachable one disconnects", ""),
  "C23-1": ("C23", "ClosestPeer stops after the target's bin ignoring eligibility", "every peer of the target's bin skipped/unreachable, eligible peers deeper", ""),
  "C23-2": ("C23", "word-wise DistanceCmp compares only the first 8 bytes of 32-byte addresses", "candidates agreeing on their first 8 bytes", "C23 missed it at first (C20 caught it); C23 generator now adds long-common-prefix siblings"),
@@ -34,20 +34,56 @@ D = {  # id: (property, breaks, needs, strengthened-note)
  "C35-1": ("C35", "RefreshKey assigns the new expiry before testing the old one: expired tokens are revived", "refresh of an expired token", ""),
  "C35-2": ("C35", "short-token guard moved from decoded bytes to the base64 string", "valid base64 of 12-16 chars decoding to < 12 bytes", ""),
  "C40-1": ("C40", "pending subscriptions drained only after the key lookup in process", "select picks an unsubscription while a subscription is still queued", ""),
- "C40-2": ("C40", "unsubscription edits the published subscriber slice in place", "Publish iterating the list while an unsubscription is processed", "MISSED — strengthening in progress (pubduring op)"),
+ "C40-2": ("C40", "unsubscription edits the published subscriber slice in place", "Publish iterating the list while an unsubscription is processed", "missed at first; C40 now has the pubduring op + generated copy-on-write fact"),
  "C40-3": ("C40", "j-- lost in the removal loop", "duplicate subscriptions and a single error value", ""),
  "C02-1": ("C02", "feeder resets bufferIdx only after the flush loop: later chunks of one Write land behind a stale offset", "a Write that finds a non-empty buffer and completes >= 2 chunks", "C01's generator did not split writes that way (C02's does); see C01-1"),
  "C02-2": ("C02", "hashtrie Sum carries a lone reference only if the next level is empty (else wraps it in a single-child chunk)", "8192k+1 chunks with real constants; small-branching instances", ""),
- "C28-1": ("C28", "post-discovery getNextHopRandom call drops the skip list", "relay node without a usable route whose discovery learns a route through its predecessor", "MISSED — strengthening in progress"),
+ "C28-1": ("C28", "post-discovery getNextHopRandom call drops the skip list", "relay node without a usable route whose discovery learns a route through its predecessor", "missed at first; C28 now covers relay-after-discovery (relayd op, link changes) + generated skip-list fact"),
  "C28-2": ("C28", "response filter counts hops instead of nodes (len-1 <= MaxTTL)", "one discovery reaching a node over two branches", ""),
- "C30-1": ("C30", "cheque store takes its lock after the increasing check", "two overlapping deliveries for one issuer on the ChequeStore", "MISSED — strengthening in progress"),
- "C30-2": ("C30", "recovered issuer cached by signature bytes only", "genuine cheque, then a forgery reusing exactly that signature", "MISSED — strengthening in progress"),
+ "C30-1": ("C30", "cheque store takes its lock after the increasing check", "two overlapping deliveries for one issuer on the ChequeStore", "missed at first; C30 now has parrecv + generated lock-region fact"),
+ "C30-2": ("C30", "recovered issuer cached by signature bytes only", "genuine cheque, then a forgery reusing exactly that signature", "missed at first; C30 generator now reuses accepted signatures"),
  "C31-1": ("C31", "putSendCheque Sets the cheque total in place (aliases the cashed record after a refresh)", "peer settled at a refresh, then a delivered cheque", ""),
  "C31-2": ("C31", "cash-out receipt handler swaps the arguments of trafficPeerChainUpdate", "received cheque, CashCheque, asynchronous receipt", ""),
- "C32-1": ("C32", "getAccountingPeer drops the map lock during the settlement lookup and inserts without re-check", "two concurrent first-time operations on one peer", "MISSED — strengthening in progress"),
+ "C32-1": ("C32", "getAccountingPeer drops the map lock during the settlement lookup and inserts without re-check", "two concurrent first-time operations on one peer", "missed at first; C32 now has a concurrent first-touch op + generated map-region fact"),
  "C32-2": ("C32", "Debit no longer takes the per-peer lock", "concurrent Debits just below the tolerance", ""),
  "C33-1": ("C33", "Put*Traffic accumulate in place (aliasing total and last-cheque amount after restore)", "settled peer, restart, update, restart", ""),
- "C33-2": ("C33", "refresh reads the persisted totals before taking the peer lock", "traffic update overlapping the 24h refresh / Init", "MISSED — strengthening in progress"),
+ "C33-2": ("C33", "refresh reads the persisted totals before taking the peer lock", "traffic update overlapping the 24h refresh / Init", "missed at first; C33 now gates the refresh reads + generated refresh-region fact"),
+ "C07-1": ("C07", "ReadAt bounds the read by cap(buffer) again", "a buffer with capacity > length", ""),
+ "C07-2": ("C07", "subtrieSection uses Branches (8192) as branching also for 64-byte encrypted references", "encrypted file > 1 GiB (two intermediate levels), read at/after 1 GiB", "missed at first; C01/C07 now serve a synthetic two-level encrypted tree to the real joiner"),
+ "C05-1": ("C05", "CreateAddress appends the owner into the id sub-slice of the chunk data: validation corrupts the chunk in place", "a SOC parsed with FromChunk, validated twice", ""),
+ "C05-2": ("C05", "crypto.Recover also accepts the recovery id in 0/1 form (and 4..7): byte 27 -> 0/4 recovers the same owner", "recovery byte changed to an aliasing value (not a single-bit flip)", "missed at first; C05 now lets the recovery byte take every value"),
+ "C01-1": ("C01", "feeder resets bufferIdx only after the flush loop (same change as C02-1)", "short write, then one write completing >= 2 chunks", "C01 missed it at first (C02 caught it); C01 now has short-then-big write cases"),
+ "C01-2": ("C01", "joiner branching constant wrong for encrypted references (same change as C07-2)", "encrypted file > 1 GiB", "missed at first; caught after c01-enc (synthetic two-level encrypted tree)"),
+ "C06-1": ("C06", "soc.FromChunk recomputes the wrapped chunk's span instead of taking the signed one", "a peer replying with the genuine SOC with an altered span", ""),
+ "C06-2": ("C06", "cac.Valid size bound 8 bytes too generous (hasher truncation hides the surplus)", "a maximum-size chunk followed by 1..8 arbitrary bytes", ""),
+ "C08-1": ("C08", "decrypt length loop rounds up once and then only divides", "intermediate chunk two or more levels up whose span is not a multiple of the child subtree size", ""),
+ "C08-2": ("C08", "Encrypt returns 0 bytes for a 0-byte payload, skipping the padding", "encrypted empty file", ""),
+ "C09-1": ("C09", "processChunkAddresses decides data-chunk-ness once per intermediate chunk", "chunk count = 1 mod Branches (carried-up lone chunk), e.g. 8193 chunks", "MISSED — strengthening in progress (fix-trav)"),
+ "C09-2": ("C09", "manifest IterateAddresses skips entries on nodes that are also edge nodes", "one stored path a proper prefix of another", ""),
+ "C10-1": ("C10", "Lookup tests len(Entry()) == 0 instead of IsValueType", "store/reload, then lookup of a branch point; zero-reference entries", ""),
+ "C10-2": ("C10", "loadsave.Load single-chunk fast path checks the payload length, not the span", "a manifest node blob larger than one chunk", "MISSED — strengthening in progress (fix-trav)"),
+ "C11-1": ("C11", "single-chunk Put(ModePutUploadPin) of a stored chunk takes the exists fast path: pin counter not incremented", "upload-pin twice, remove once", ""),
+ "C11-2": ("C11", "putRequest writes the chunk data directly instead of in the batch", "request put with a root context whose root is not stored (the put fails)", ""),
+ "C36-1": ("C36", "file keystore ImportKey no longer checks the password of the key it replaces", "import under a different password over an existing name", ""),
+ "C36-2": ("C36", "in-memory keystore check-then-create no longer atomic (RWMutex, no re-check)", "concurrent Key calls on one new name", "missed at first; C36 now has a concurrent parkey op"),
+ "C38-1": ("C38", "Group.add early return for already-connected peers skips the neighbour re-check", "connected peer loses its direct link, handshakes again over a relay", ""),
+ "C38-2": ("C38", "receive-side de-duplication removed from onMulticast", "one message reaching a member over two paths", ""),
+ "C14-1": ("C14", "setRemove deletes the chunk data by a direct write before the batch", "crash between the two writes on a once-pinned chunk", ""),
+ "C14-2": ("C14", "reopen recomputes gcSize as the number of gc entries instead of the sum of counters", "multi-address remove of a cached file, stop, reopen", ""),
+ "C34-1": ("C34", "verified-signer cache keyed by the signature bytes only", "genuine record seen first, then the same signature with another underlay / network id", ""),
+ "C34-2": ("C34", "one byte of the network id (bits 32..39) is not signed", "network ids differing in bits 32..39", "missed at first; C34 now uses arbitrary 64-bit network ids and every-single-bit mismatches"),
+ "C13-1": ("C13", "GC's dirty check moved out of the DelFile callback", "access to the file between the check and the eviction callback", ""),
+ "C13-2": ("C13", "GC's cleanup defer registered after the early return: gcRunning stays true after an idle run", "idle run, then a run whose candidates were all touched", ""),
+ "C37-1": ("C37", "hive2 limit split simplified: a negative Limit slices peers[:negative]", "FindNodeReq with Limit < 0", ""),
+ "C37-2": ("C37", "updateChunkInfo ORs presence bytes byte-wise without the length check", "second ChunkInfoResp for an overlay with more presence bytes", ""),
+ "C15-1": ("C15", "DeletePin skips leaves already handled in the same traversal", "reference containing the same chunk at several positions", ""),
+ "C15-2": ("C15", "setPin computes the new counter from a reused variable: with a root context every pin sets the counter to 1", "two references sharing a chunk, both pinned, one unpinned", ""),
+ "C16-1": ("C16", "getUnRepeatChunk lost the refcount test for intermediate/manifest chunks", "two files sharing a non-data chunk (same content under two names)", ""),
+ "C16-2": ("C16", "delRootCid releases one reference per occurrence instead of one per file", "file with a repeated chunk also used by two other files", ""),
+ "C17-1": ("C17", "getPyramidHash hands delRootCid every key (single-chunk file's chunk released twice)", "two roots sharing a single-chunk file, delete/re-upload/delete", ""),
+ "C17-2": ("C17", "delPresence deletes only the node's own persisted record", "file served to a peer before deletion", ""),
+ "C12-1": ("C12", "setUnpin lost its early return: an unpin that leaves the chunk pinned re-enters the root into the gc index", "pin twice, unpin once, cache over capacity", ""),
+ "C12-2": ("C12", "GC dirty-address check hoisted out of the deletion callback", "a pin landing between the check and the callback", ""),
 }
 rows = []
 for d in sorted(glob.glob('/verif/seeded/*')):
